@@ -152,6 +152,11 @@ pub fn run(rep: &mut Report, thorough: bool) {
         // not UTF-8, a name that runs into the end of the mapping
         let mut bad_chains: Vec<(u64, u64, String)> = Vec::new();
         let sc = match scen::build_target_with(&mut rng, &cfg, |b, rng| {
+            // every second shape runs with an EMPTY environment: copying a file of length 0 is a
+            // copy that succeeded, not a failed step
+            if shape % 2 == 1 {
+                b.opts.env = Some(Vec::new());
+            }
             for v in [4u64, 5] {
                 let i = b.anon(1, 2, 6, crate::spec::Fill::Zero);
                 let base = b.spec.regions[i].addr;
